@@ -1089,6 +1089,63 @@ fn all_election_scenarios() -> Vec<String> {
     out
 }
 
+// ------------------------------------------------------------------ family: httpserver (the REAL transport: start_http_client on a loopback port, four worker threads)
+/// every HTTP request is a session of its own: nothing an earlier request did (authentication, database selection) is available to a later one, whichever worker serves it
+fn http_post(addr: &str, body: &str) -> String {
+    use std::io::{Read, Write};
+    let mut stream = match std::net::TcpStream::connect(addr) { Ok(s) => s, Err(_) => return "<connect failed>".into() };
+    let _ = stream.set_read_timeout(Some(std::time::Duration::from_secs(10)));
+    let request = format!("POST / HTTP/1.1\r\nHost: {}\r\nContent-Length: {}\r\nConnection: close\r\n\r\n{}", addr, body.len(), body);
+    if stream.write_all(request.as_bytes()).is_err() { return "<write failed>".into(); }
+    let mut response = String::new();
+    let _ = stream.read_to_string(&mut response);
+    match response.find("\r\n\r\n") { Some(at) => response[at + 4..].to_string(), None => response }
+}
+static HTTP_SERVER: std::sync::OnceLock<Option<(String, Arc<Databases>)>> = std::sync::OnceLock::new();
+fn http_server() -> &'static Option<(String, Arc<Databases>)> {
+    HTTP_SERVER.get_or_init(|| {
+        let dbs = mk_dbs();
+        let port = { let probe = std::net::TcpListener::bind("127.0.0.1:0").ok()?; probe.local_addr().ok()?.port() };
+        let addr = format!("127.0.0.1:{}", port);
+        { let dbs = dbs.clone(); let a = Arc::new(addr.clone()); std::thread::spawn(move || nundb::network::http_ops::start_http_client(dbs, a)); }
+        for _ in 0..400 { if std::net::TcpStream::connect(&addr).is_ok() { return Some((addr, dbs)); } std::thread::sleep(std::time::Duration::from_millis(10)); }
+        None
+    })
+}
+fn scenario_httpserver(sc: &str) -> Result<Violations, String> {
+    // sc = "<n>": an administrator works over HTTP for n requests (every worker gets to serve some), then n requests that never authenticate / never select a database follow
+    let n: usize = sc.parse().map_err(|_| "bad count")?;
+    let (addr, dbs) = match http_server() { Some(x) => x, None => return Err("http server did not start".into()) };
+    let mut v: Violations = vec![];
+    let created = http_post(addr, "auth u p;create-db hd htok;use-db hd htok;set $$secret S3CR3T;set pub 1");
+    if !created.contains("create-db success") && !created.contains("already exist") { return Err(format!("setup refused: {}", created)); }
+    for _ in 0..n { let seen = http_post(addr, "auth u p;use-db hd htok;get $$secret"); if !seen.contains("S3CR3T") { return Err(format!("admin read failed: {}", seen)); } }
+    for i in 0..n {
+        // a request that selects the database with its token but never authenticates as administrator
+        let read = http_post(addr, "use-db hd htok;get $$secret");
+        let safe = http_post(addr, "use-db hd htok;get-safe $$secret");
+        let ok = !read.contains("S3CR3T") && !safe.contains("S3CR3T");
+        chk(&mut v, "C08.request-is-own-session", ok); chk(&mut v, "C08.secure-guard", ok);
+        http_post(addr, "use-db hd htok;set $$secret hacked");
+        http_post(addr, "use-db hd htok;remove $$secret");
+        // a request that never selects a database, and one that runs an administrative command without authenticating
+        let nodb = http_post(addr, "get pub");
+        chk(&mut v, "C09.request-is-own-session", !nodb.contains("value 1")); chk(&mut v, "C09.needs-selected-db", !nodb.contains("value 1"));
+        let made = http_post(addr, &format!("create-db hx{} t", i));
+        chk(&mut v, "C09.request-is-own-session", !made.contains("create-db success")); chk(&mut v, "C09.auth-gate", !made.contains("create-db success"));
+        // the reply of a request holds one entry per command of THAT request (nothing left over from the previous request on the same worker)
+        let two = http_post(addr, "use-db hd htok;get pub");
+        chk(&mut v, "C20.request-is-own-session", two.split(';').count() == 2 && two.contains("value 1"));
+    }
+    let secret = { let m = dbs.map.read().unwrap(); m.get("hd").and_then(|d| d.get_value("$$secret".into())) };
+    let intact = secret.map_or(false, |e| e.value == "S3CR3T" && e.state != ValueStatus::Deleted);
+    chk(&mut v, "C08.request-is-own-session", intact); chk(&mut v, "C08.secure-unchanged", intact);
+    let no_extra_db = { let m = dbs.map.read().unwrap(); !m.keys().any(|k| k.starts_with("hx")) };
+    chk(&mut v, "C09.request-is-own-session", no_extra_db); chk(&mut v, "C09.auth-gate", no_extra_db);
+    Ok(v)
+}
+fn all_httpserver_scenarios() -> Vec<String> { vec![if deep() { "48".to_string() } else { "16".to_string() }] }
+
 // ------------------------------------------------------------------ family: http (one body = several commands; one reply entry per command)
 fn scenario_http(sc: &str) -> Result<Violations, String> {
     // sc = the HTTP body, commands separated by ';'
@@ -1181,14 +1238,15 @@ fn families() -> Vec<(&'static str, fn() -> Vec<String>, fn(&str) -> Result<Viol
          ("election", all_election_scenarios, scenario_election),
          ("snapshot", all_snapshot_scenarios, scenario_snapshot),
          ("resync", all_resync_scenarios, scenario_resync),
-         ("permchange", all_permchange_scenarios, scenario_permchange)]
+         ("permchange", all_permchange_scenarios, scenario_permchange),
+         ("httpserver", all_httpserver_scenarios, scenario_httpserver)]
 }
 /// the properties whose clause labels a family can report (every family reports C10.safety when a call panics, so C10 runs them all)
 fn family_props(fam: &str) -> &'static [&'static str] {
     match fam {
         "store" => &["C01", "C02", "C03", "C08"], "strategy" => &["C02", "C13", "C19"], "pending" => &["C15"], "ids" => &["C16"], "keymap" => &["C16"],
         "oplog" => &["C12"], "session" => &["C01", "C08", "C09"], "permchange" => &["C09"], "arbiter" => &["C13"], "watch" => &["C03"], "lines" => &[], "flood" => &[],
-        "connections" => &["C17"], "snapshot" => &["C01", "C06"], "resync" => &["C05"], "election" => &["C07"], "http" => &["C20"],
+        "connections" => &["C17"], "snapshot" => &["C01", "C06"], "resync" => &["C05"], "election" => &["C07"], "http" => &["C20"], "httpserver" => &["C08", "C09", "C20"],
         _ => &[],
     }
 }
